@@ -116,7 +116,7 @@ Proof.
 Qed.
 
 Lemma iter_shift {A} (f : A -> A) n x : Nat.iter n f (f x) = Nat.iter (S n) f x.
-Proof. induction n as [|n IH]; [reflexivity|]. cbn [Nat.iter nat_rect] in *. rewrite IH. reflexivity. Qed.
+Proof. induction n as [|n IH]; [reflexivity|]. change (Nat.iter (S n) f (f x)) with (f (Nat.iter n f (f x))). rewrite IH. reflexivity. Qed.
 
 Lemma rd_loop_conforming rl extra : forall cs tag reqs acc,
   cs <> [] -> Forall (fun c => len (chunk_data c) < 4294967296) cs ->
